@@ -158,7 +158,18 @@ func (r *c18Run) rec(e c18Ev) {
 	r.mu.Unlock()
 }
 
+// c18TrBase splits the transport token "std+150" into the transport and the duration in ms the OnAccept hook
+// takes (a connection that is accepted but has not reached its handler yet when Shutdown is called).
+func c18TrBase(tr string) (string, int) {
+	if i := strings.IndexByte(tr, '+'); i >= 0 {
+		d, _ := strconv.Atoi(tr[i+1:])
+		return tr[:i], d
+	}
+	return tr, 0
+}
+
 func c18Transport(tr string) func(*config.Options) network.Transporter {
+	tr, _ = c18TrBase(tr)
 	if tr == "np" {
 		return netpoll.NewTransporter
 	}
@@ -208,6 +219,9 @@ func c18Scenario(s *c18Script) []string {
 		server.WithReadTimeout(60*time.Second),
 		server.WithOnAccept(func(c net.Conn) context.Context {
 			r.rec(c18Ev{kind: "A", addr: c.RemoteAddr().String()})
+			if _, d := c18TrBase(s.tr); d > 0 {
+				time.Sleep(time.Duration(d) * time.Millisecond)
+			}
 			return context.Background()
 		}),
 	)
@@ -885,14 +899,24 @@ func genC18(tier string, rng *Rng) {
 			&c18Script{tr: tr, W: 3000, shutAt: 60, second: 1, hooks: []int{0, 30}, // long exit wait, nothing to wait for
 				conns: []c18Conn{{startAt: 5, closeAt: -1, reqs: []c18Req{{delay: 20, hdur: 70}}},
 					{startAt: 8, closeAt: 90, reqs: []c18Req{{delay: 5, hdur: 1}}}}},
+			&c18Script{tr: tr, W: 250, shutAt: 40, second: 0, hooks: []int{1600}}, // a hook far beyond the deadline (and the slack)
 			&c18Script{tr: tr, W: 200, shutAt: 60, second: 2, // idle keep-alive held: waits for the deadline
 				conns: []c18Conn{{startAt: 5, closeAt: -1, reqs: []c18Req{{delay: 5, hdur: 1}}}}},
 		)
 	}
+	// a connection still inside a slow OnAccept hook when Shutdown is called (request already sent)
+	scripts = append(scripts,
+		&c18Script{tr: "std+150", W: 500, shutAt: 60, second: 0,
+			conns: []c18Conn{{startAt: 30, closeAt: -1, reqs: []c18Req{{delay: 0, hdur: 40}}}}},
+		&c18Script{tr: "std+120", W: 400, shutAt: 50, second: 1, hooks: []int{0},
+			conns: []c18Conn{{startAt: 5, closeAt: -1, reqs: []c18Req{{delay: 5, hdur: 20}}}, {startAt: 35, closeAt: -1, reqs: []c18Req{{delay: 0, hdur: 30}}}}},
+	)
 	for i := 0; len(scripts) < n; i++ {
 		tr := "std"
 		if i%3 == 2 {
 			tr = "np"
+		} else if i%8 == 5 {
+			tr = "std+" + strconv.Itoa(40+rng.Intn(120))
 		}
 		scripts = append(scripts, c18Gen(rng, tr, i%7 == 6))
 	}
